@@ -156,7 +156,8 @@ HISTORY_FREE = ("applicable", "applicable_other_state", "apply", "apply_allow", 
 
 CALLS = ["ground", "applicable", "apply", "apply_allow", "apply_skip", "reapply_result", "second_operator_apply", "str_action",
          "print_plain", "print_simplified", "serialize", "export", "new_domain", "shallow_copy", "parse_other", "parse_untyped",
-         "combine_domains", "typed_action_call", "applicable_other_state", "apply_other_state"]
+         "combine_domains", "typed_action_call", "applicable_other_state", "apply_other_state", "print_simplified_2",
+         "print_other_domain_simplified"]
 
 
 class History:
@@ -207,6 +208,12 @@ class History:
             return ("text", act.preconditions.print(should_simplify=False))
         if call == "print_simplified":
             return ("text", act.preconditions.print(should_simplify=True, decimal_digits=4))
+        if call == "print_simplified_2":
+            return ("text", act.preconditions.print(should_simplify=True, decimal_digits=2))
+        if call == "print_other_domain_simplified":
+            # a structurally equal precondition of ANOTHER parsed domain, printed at another precision
+            d2 = lib.parse_domain(self.task["domain_text"].replace("(domain u)", "(domain u2)"))
+            return ("text", d2.actions[self.task["action"]].preconditions.print(should_simplify=True, decimal_digits=1))
         if call == "serialize":
             return ("text", s.serialize() + s.typed_serialize())
         if call == "export":
@@ -233,6 +240,29 @@ class History:
             d = MultiAgentDomainsConverter(tmp).locate_domains()
             return ("text", str(sorted(d.types.keys())))
         raise ValueError(call)
+
+
+# calls whose result is a text that depends on the (concrete) domain only: their result in ANY history must be the text the
+# same call returns as the very first call of a fresh interpreter (computed once per run, one fresh process per call)
+PURE_TEXT_CALLS = ("str_action", "typed_action_call", "print_plain", "print_simplified", "print_simplified_2",
+                   "print_other_domain_simplified", "export")
+
+
+def _baseline_one(job):
+    """runs in a freshly spawned interpreter: nothing has been parsed, printed or cached before"""
+    text, args, call = job
+    task = dict(domain_text=text, action="act", args=list(args), objects=dict(G.OBJECTS), mode="apply")
+    world = lib.World(text, task["objects"])
+    state, _ = world.make_state({}, {})
+    r = History(world, state, task).run(call)
+    return r[1] if r[0] in ("text", "tokens") else None
+
+
+def baselines(jobs):
+    import multiprocessing as mp
+    ctx = mp.get_context("spawn")
+    with ctx.Pool(min(runner.workers(), max(1, len(jobs))), maxtasksperchild=1) as pool:
+        return pool.map(_baseline_one, jobs, chunksize=1)
 
 
 def results_equal(ctx, a, b):
@@ -287,6 +317,11 @@ def run_history(task):
             v2 = h.run(c2)
             writes2 = list(WRITES)
             problems = []
+            base = task.get("baseline") or {}
+            for cname, val in ((c1, v1), (c2, v2)):
+                if cname in base and val[0] in ("text", "tokens") and val[1] != base[cname]:
+                    problems.append(f"{cname} in the history ({c1} ; {c2}) returned another text than as the first call of a fresh "
+                                    f"interpreter: {str(val[1])[:120]} vs {str(base[cname])[:120]}")
             if c2 in HISTORY_FREE:
                 try:
                     v2_fresh = History(world, state, task, state2).run(c2)
@@ -387,6 +422,10 @@ def replay_history(task, state):
     v2 = h.run(task["c2"])
     w2 = list(WRITES)
     problems = []
+    base = task.get("baseline") or {}
+    for cname, val in ((task["c1"], v1), (task["c2"], v2)):
+        if cname in base and val[0] in ("text", "tokens") and val[1] != base[cname]:
+            problems.append(f"{cname} returned another text than as the first call of a fresh interpreter")
 
     def differ(a, b):
         return a[0] != b[0] or (a[0] == "state" and (digest_state(a[1])[0] != digest_state(b[1])[0] or digest_state(a[1])[1] != digest_state(b[1])[1])) \
@@ -419,6 +458,8 @@ def replay_history(task, state):
 
 
 PROGRAMS = [
+    # a coefficient that prints differently at 1, 2 and 4 decimals
+    ("P2", ["and", ["p", "?x"], ["<=", ["*", ["f", "?x"], "0.123456"], ["+", ["f", "?y"], "2.5"]]], ["and", ["not", ["p", "?x"]], ["increase", ["f", "?y"], "0.25"]]),
     # the only numeric comparison sits inside a nested junction
     ("P1", ["and", ["p", "?x"], ["or", ["r"], [">=", ["f", "?x"], ["g"]]]], ["and", ["when", ["r"], ["increase", ["g"], "1"]], ["not", ["p", "?x"]]]),
     ("P2", ["and", ["p", "?x"], [">=", ["f", "?x"], ["g"]]], ["and", ["not", ["p", "?x"]], ["increase", ["f", "?x"], "1"]]),
@@ -441,7 +482,10 @@ def tasks_for(tier, seed):
         must = [("apply", "reapply_result"), ("apply", "apply"), ("apply", "export"), ("export", "apply"), ("apply", "combine_domains"),
                 ("new_domain", "combine_domains"), ("new_domain", "parse_other"), ("str_action", "apply"), ("applicable", "apply_allow"),
                 ("apply_allow", "second_operator_apply"), ("shallow_copy", "apply"), ("print_simplified", "apply"),
-                ("export", "combine_domains"), ("parse_untyped", "combine_domains"), ("second_operator_apply", "reapply_result")]
+                ("export", "combine_domains"), ("parse_untyped", "combine_domains"), ("second_operator_apply", "reapply_result"),
+                ("print_simplified", "print_simplified_2"), ("print_simplified_2", "print_simplified"),
+                ("print_simplified", "print_other_domain_simplified"), ("print_other_domain_simplified", "print_simplified_2"),
+                ("print_plain", "print_simplified_2")]
         for c1, c2 in list(dict.fromkeys(must + chosen)):
             for args in (args_list if (c1, c2) in must else args_list[:1]):
                 tasks.append(dict(domain_text=text, action="act", args=args, objects=dict(G.OBJECTS), mode="apply",
@@ -455,9 +499,19 @@ def tasks_for(tier, seed):
                     tasks.append(dict(domain_text=text, action="act", args=args_list[0], objects=dict(G.OBJECTS), mode="apply",
                                       label=f"[first state omits {omit}] pre {sexpr.render(pre)} eff {sexpr.render(eff)}", c1=c1, c2=c2,
                                       cap=8, frame_atoms=0, omit=omit, max_paths=400 if tier == "quick" else 4000))
+    # baselines of the pure text calls, one fresh interpreter each
+    keys = sorted({(t["domain_text"], tuple(t["args"])) for t in tasks})
+    jobs = [(text, args, call) for (text, args) in keys for call in PURE_TEXT_CALLS]
+    got = baselines(jobs)
+    table = {}
+    for (text, args, call), val in zip(jobs, got):
+        if val is not None:
+            table.setdefault((text, args), {})[call] = val
+    for t in tasks:
+        t["baseline"] = table.get((t["domain_text"], tuple(t["args"])), {})
     # an operator built WITHOUT the problem's objects (quantifiers then range over the objects that occur in the state it is
     # asked about) used on two states with independent facts
-    pl, pre, eff = PROGRAMS[3]
+    pl, pre, eff = PROGRAMS[4]
     text = G.domain_text([("act", G.PARAM_LISTS[pl], pre, eff)], const=True)
     for c1, c2 in (("applicable", "applicable_other_state"), ("applicable_other_state", "applicable"),
                    ("apply_allow", "apply_other_state"), ("applicable", "apply_other_state")):
